@@ -247,11 +247,17 @@ theorem wu_sim (cfg : Cfg) (hist : List Evt) :
         · exact onTimeout_runs_head cfg l r h2
         · exact h2
 
-theorem wj_start (cfg : Cfg) (b0 : Bool) (hok : ¬ (cfg.checkNow = true ∧ cfg.holdFalse.isSome = true ∧ b0 = false)) :
-    WJ (WaitUntil.start cfg b0) (Legacy.start cfg b0) := by
+/-- the pre-fix initial check of `wait_until` agreed with the decorator loop only outside
+`state_check_now ∧ state_hold_false ∧ initially false`; since fix `07b3e39` (`unrecorded = false`) it always does -/
+theorem wj_startF (unrecorded : Bool) (cfg : Cfg) (b0 : Bool)
+    (hok : unrecorded = true → ¬ (cfg.checkNow = true ∧ cfg.holdFalse.isSome = true ∧ b0 = false)) :
+    WJ (WaitUntil.startF unrecorded cfg b0) (Legacy.start cfg b0) := by
   obtain ⟨cn, S, H⟩ := cfg
-  unfold WJ WaitUntil.start Legacy.start Legacy.onMsg Legacy.holdFalseStep Legacy.holdStep Legacy.finish Legacy.init
-  cases cn <;> cases H <;> cases S <;> cases b0 <;> simp_all
+  unfold WJ WaitUntil.startF Legacy.start Legacy.onMsg Legacy.holdFalseStep Legacy.holdStep Legacy.finish Legacy.init
+  cases unrecorded <;> cases cn <;> cases H <;> cases S <;> cases b0 <;> simp_all
+
+theorem wj_start (cfg : Cfg) (b0 : Bool) : WJ (WaitUntil.start cfg b0) (Legacy.start cfg b0) :=
+  wj_startF false cfg b0 (fun h => absurd h (by simp))
 
 /-! ## new subsystem (as it is now): `true_entered_at`/`last_func_args` ↔ `pending`, `false_entered_at` ↔ `falseSince` -/
 
@@ -330,18 +336,28 @@ theorem nabs_onEval (cfg : Cfg) (st : NState) (t : Nat) (b : Bool) (a : Nat) (h 
           · have hlt2 : t - f < hv := by omega
             cases b <;> simp [hge, hlt2, hlt, hlt']
 
-theorem nabs_start (cfg : Cfg) (wu b0 : Bool)
-    (hok : ¬ (cfg.checkNow = true ∧ cfg.holdFalse.isSome = true ∧ b0 = true)) :
-    nabs (New.start cfg wu b0) = Spec.start cfg b0 ∧ NInv cfg (New.start cfg wu b0) := by
+/-- the start-up check: with the pre-fix flags only outside `state_check_now ∧ state_hold_false ∧ initially true`,
+since fix `e7ed034` (both start flags false) always -/
+theorem nabs_startF (fl : New.Flags) (cfg : Cfg) (wu b0 : Bool)
+    (hok : (fl.startNeedsFalse = true ∨ fl.wuClearsHoldFalse = true) →
+      ¬ (cfg.checkNow = true ∧ cfg.holdFalse.isSome = true ∧ b0 = true)) :
+    nabs (New.startF fl cfg wu b0) = Spec.start cfg b0 ∧ NInv cfg (New.startF fl cfg wu b0) := by
   obtain ⟨cn, S, H⟩ := cfg
-  unfold New.start New.checkNewState Spec.start candidate nabs NInv
-  cases cn <;> cases H <;> cases S <;> cases b0 <;> cases wu <;> simp_all
+  obtain ⟨f1, f2, f3, f4⟩ := fl
+  unfold New.startF New.checkNewState Spec.start candidate nabs NInv
+  cases f3 <;> cases f4 <;> cases cn <;> cases H <;> cases S <;> cases b0 <;> cases wu <;> simp_all
 
-theorem nr_start_te (cfg : Cfg) (wu b0 : Bool) (s : Nat) (h : (New.start cfg wu b0).te = some s) : s = 0 := by
+theorem nabs_start (cfg : Cfg) (wu b0 : Bool) :
+    nabs (New.startF New.current cfg wu b0) = Spec.start cfg b0 ∧ NInv cfg (New.startF New.current cfg wu b0) :=
+  nabs_startF New.current cfg wu b0 (fun h => by simp [New.current] at h)
+
+theorem nr_start_te (fl : New.Flags) (cfg : Cfg) (wu b0 : Bool) (s : Nat)
+    (h : (New.startF fl cfg wu b0).te = some s) : s = 0 := by
   obtain ⟨cn, S, H⟩ := cfg
+  obtain ⟨f1, f2, f3, f4⟩ := fl
   revert h
-  unfold New.start New.checkNewState
-  cases cn <;> cases H <;> cases S <;> cases b0 <;> cases wu <;> simp <;> omega
+  unfold New.startF New.checkNewState
+  cases f3 <;> cases f4 <;> cases cn <;> cases H <;> cases S <;> cases b0 <;> cases wu <;> simp <;> omega
 
 /-- `true_entered_at` is only ever set to the time of the message being handled -/
 theorem new_onMsg_te (hold : Option Nat) (st : NState) (t : Nat) (k : Kind) (a : Nat) (s : Nat)
